@@ -50,6 +50,9 @@ PROPS = {
     "C05": dict(pkg="c05", level="exploration",
                 quick=[R(checks=800)],
                 thorough=[R(checks=4000, shards=16, timeout=1500)]),
+    "C07": dict(pkg="c07", level="exploration",
+                quick=[R(checks=1000)],
+                thorough=[R(checks=2500, shards=16, timeout=2400)]),
     "C08": dict(pkg="c08", level="exploration",
                 quick=[R(checks=1500)],
                 thorough=[R(checks=6000, shards=16, timeout=1500)]),
